@@ -58,6 +58,21 @@ def classify_file(data):
         try:
             text = data.decode("utf-8")
         except UnicodeDecodeError:
+            # bytes that are not UTF-8 (a file saved in a legacy 8-bit encoding): under any decoding a byte >= 0x80 inside a sequence line
+            # is a character other than a residue, a space, an ASCII digit or '*'; inside the header line it stays unspecified
+            lines = data.replace(b"\r\n", b"\n").replace(b"\r", b"\n").split(b"\n")
+            seen_header = False
+            for ln in lines:
+                st_ = ln.strip(b" ")
+                if st_.startswith(b">") and not seen_header:
+                    seen_header = True
+                    continue
+                if any(b >= 0x80 for b in st_) and not any(b < 32 or b == 127 for b in st_):
+                    try:
+                        st_.decode("utf-8")
+                    except UnicodeDecodeError:
+                        if all((b >= 0x80) or chr(b) in ref.AA + " 0123456789*" for b in st_) and not st_.startswith(b">"):
+                            return ("reject", "foreign-char")
             return ("unspecified", "undecodable")
         for ch in text:
             if ord(ch) > 127 and (ch.isdecimal() or ch.isspace() or ch in "\x85\u2028\u2029" or not ch.isprintable()):
@@ -277,12 +292,22 @@ def enum_cases(tier, seed):
     yield {"hex": render(base, "\r\n", False).hex(), "expect": ["ok", "MKVLAGSEDKRRPYT"]}
     for ch in "²³¹①⑳½éÉßµΩ中":
         for base in ([">h", "MKVLA GSEDK", "RRPYT"], ["MKVLA GSEDK", "RRPYT"]):
+            # the character as a token of its own, next to a position number, and alone on a line
+            for variant in (base[:-1] + [base[-1][:2] + " " + ch + " " + base[-1][2:]], base[:-1] + ["10 " + ch + " " + base[-1]],
+                            base[:-1] + ["1" + ch + " " + base[-1]], base[:-1] + [ch, base[-1]], base + [ch]):
+                yield {"hex": ("\n".join(variant) + "\n").encode("utf-8").hex(), "expect": ["reject", "foreign-char"]}
             for li in (len(base) - 2, len(base) - 1):
                 line = base[li]
                 for p in (1, 3, len(line) - 1):
                     lines = list(base)
                     lines[li] = line[:p] + ch + line[p:]
                     yield {"hex": ("\n".join(lines) + "\n").encode("utf-8").hex(), "expect": ["reject", "foreign-char"]}
+    for byte in (0xE9, 0xB5, 0xB7, 0xA0, 0x80, 0xFF):
+        for base in ([b">h", b"MKVLA GSEDK", b"RRPYT"], [b"MKVLA GSEDK", b"RRPYT"]):
+            line = base[-1]
+            for p in (1, 3):
+                lines = base[:-1] + [line[:p] + bytes([byte]) + line[p:]]
+                yield {"hex": (b"\n".join(lines) + b"\n").hex(), "expect": ["reject", "foreign-char"]}
     for a in ref.AA:
         yield {"hex": a.encode().hex(), "expect": ["ok", a]}
         yield {"hex": (">h\n" + a + "*\n").encode().hex(), "expect": ["ok", a]}
